@@ -522,6 +522,10 @@ def gen_rt(rng, tier, promised_only=False):
         c['zero_at'] = list(rng.choice(zeros))
     if mode in ('lines', 'handle') and rng.random() < 0.3:
         c['direct'] = True
+    if c['mode'] not in ('lines', 'handle') and not promised(c):
+        # e.g. a taxonomy made of numeric-looking names only: the file-based paths go through
+        # `biom convert`, which refuses to process metadata that was read as a sample column
+        c['mode'] = mode = rng.choice(['lines', 'handle'])
     if promised_only or mode == 'convert' or rng.random() < 0.7:
         return c
     # ---- not-promised stream: the model must still agree with the code
@@ -649,8 +653,9 @@ def gen(rng, tier):
     if tier == 'thorough':
         for _ in range(40):
             c = gen_rt(rng, tier, True)
-            c['mode'] = 'cli'
-            c.pop('direct', None)
+            if promised(c):
+                c['mode'] = 'cli'
+                c.pop('direct', None)
             yield c
 
 
